@@ -17,7 +17,12 @@ exercise it: a `Store` holds the objects handed out so far, a `Step` is one thin
 * `encode`, `deinterleave_data_bits`, `repair_if_necessary`, `deinterleave_all_bits` hand out new objects
   and read their argument only — a literal (`Arg.lit`; the bit order of the bitarray container is
   irrelevant, the entry points index the bits) or an object kept from an earlier call (`Arg.ref`);
-* `flip` / `setAll` are the caller overwriting a kept object, `read` looks at it.
+* `flip` / `setAll` are the caller overwriting a kept object, `read` looks at it;
+* `put` is the caller overwriting a kept object IN PLACE with a whole new content (`buf[:] = …`, or
+  `buf.clear(); buf.extend(…)`): the object stays the same Python object, every later call that is given it
+  sees the new content and nothing of the old one — whatever the two contents have in common (the same
+  info bits, the same parity bits, a common prefix, the same number of ones …);
+* `new` is a bitarray the caller made itself (a frame buffer it will re-use).
 -/
 
 namespace Dmr.Bptc
@@ -50,6 +55,12 @@ def Obj.content : Obj → Bits
 def Obj.withContent : Obj → Bits → Obj
   | .bits _, c => .bits c
   | .table _, c => .table c
+
+/-- what the caller can overwrite the object with as a whole: a bitarray takes any bits (its length
+follows), a 13×15 table takes 195 cells -/
+def Obj.accepts : Obj → Bits → Bool
+  | .bits _, _ => true
+  | .table _, c => c.length == 13 * 15
 
 /-- handle `k` is slot `k`; `none` = nothing was handed out (the call raised) -/
 structure Store where
@@ -86,6 +97,10 @@ inductive Step where
   | flip (k i : Nat)
   | setAll (k : Nat) (v : Bool)
   | read (k : Nat)
+  /-- the caller overwrites the kept object `k` in place with the bits of `a` -/
+  | put (k : Nat) (a : Arg)
+  /-- the caller makes a bitarray of its own and keeps it -/
+  | new (b : Bits)
   /-- nothing happens; `push = true` uses up a handle -/
   | nop (push : Bool)
 deriving Repr
@@ -108,6 +123,7 @@ def Step.target : Step → Option Nat
   | .fill t _ => some t
   | .flip k _ => some k
   | .setAll k _ => some k
+  | .put k _ => some k
   | _ => none
 
 def step (s : Store) : Step → Store × Out
@@ -138,6 +154,10 @@ def step (s : Store) : Step → Store × Out
   | .read k => match s.get k with
     | some o => (s, .val o.content)
     | none => (s, .void)
+  | .put k a => match s.get k, a.bits s with
+    | some o, some b => if o.accepts b then (s.write k (o.withContent b), .done) else (s, .void)
+    | _, _ => (s, .void)
+  | .new b => (s.push (some (.bits b)), .done)
   | .nop p => (if p then s.push none else s, .void)
 
 /-- the store after a whole history -/
